@@ -94,6 +94,15 @@ Example pause_hook_error_abnormal_result :
   late_pause _ _ (fst r) = false /\ intr_err _ _ (fst r) = false /\ no_bad (snd r) = true.
 Proof. vm_compute. repeat split; reflexivity. Qed.
 
+(* the out-of-fuel alternative of [reach_inv] is not vacuous: the plan coalgebra may answer every
+   throw() with CancelledError again (a real generator is finished after raising); while aborting,
+   the interpreter then throws RequestAbort into the same frame for ever *)
+Definition tapeC : list (nat * list tout) := [(0, [TY nullm; TE ECancelled])].
+Example out_of_fuel_reachable :
+  let r := trun tapeC [] [] [EvMain (ACall 0); EvPermit; EvTask; EvTask; EvReqAbort RsEmpty; EvTask] in
+  state _ _ (fst r) = Aborting /\ pc _ _ (fst r) = PcNone /\ existsb (fun x => match x with OBad 1 => true | _ => false end) (snd r) = true.
+Proof. vm_compute. repeat split; reflexivity. Qed.
+
 (* ------------------------------------------------------------------ axiom audit *)
 Print Assumptions reach_inv.
 Print Assumptions step_inv.
@@ -104,5 +113,7 @@ Print Assumptions done_is_idle.
 Print Assumptions stacks_aligned.
 Print Assumptions cleanup_never_stranded.
 Print Assumptions cbody_no_assert_exit.
+Print Assumptions assertion_never_fails.
+Print Assumptions cleanup_never_refused.
 Print Assumptions interrupted_idle_cause_full.
 Print Assumptions interrupted_idle_cause.
